@@ -1,7 +1,9 @@
 (* C04 property theorems.  Nothing but statements closed by `exact`, statement pins and
    Print Assumptions.  bs ranges over ALL bit lists, p/k/i over all naturals. *)
-From Coq Require Import List Arith Lia Bool.
+From Coq Require Import List Arith NArith ZArith Lia Bool.
 From ZV.C04 Require Import Spec Model ModelIL ProofsRank ProofsFew ProofsSelect ProofsSelect0 ProofsIL.
+From ZV.C04 Require Import ModelGen ModelILSel ModelSE256 ModelSimple ModelFew2 ModelBV ModelTrivial ModelMixed ModelRun.
+From ZV.C04 Require Import ProofsGen ProofsILSel ProofsSE256 ProofsSE256Sel0 ProofsSimple ProofsFew2 ProofsBV ProofsTrivial ProofsMixed.
 Import ListNotations.
 
 (* --- spec layer: the definition itself has the laws the property names --- *)
@@ -132,3 +134,400 @@ Example se512_nonvacuous :
   se_rank1 (build bs true true) 600 = Some 387 /\ se_rank1 (build bs true true) 513 = Some 300 /\
   se_select1 (build bs true true) 300 = Some 513 /\ se_select1 (build bs true true) 387 = None.
 Proof. vm_compute. repeat split; reflexivity. Qed.
+
+(* --- RankSelectInterleaved256 select1 / select0 as written (interleaved.rs): the sampled select cache built by
+       walking the bits, select1_from_hint + select1_linear_search, and - with the cache disabled - binary_search_lines
+       + select1_within_line + uint_select1_bmi2; select0 by upper bound over line zero counts and the inverted,
+       zero-padded words.  For every bit list, every k, every sample rate, cache on or off: the position of the
+       k-th one / zero, refused exactly when k is not below the number of ones / zeros
+       (spec_select_defined_iff).  select1_hardware_accelerated / _adaptive / _optimized are this function. --- *)
+Theorem il256_select1_correct : forall bs enable rate k,
+  ils_select1 (ils_build bs enable rate) k = select1 bs k.
+Proof. exact ils_select1_correct_proof. Qed.
+Check il256_select1_correct : forall bs enable rate k,
+  ils_select1 (ils_build bs enable rate) k = select1 bs k.
+Print Assumptions il256_select1_correct.
+
+(* the answer does not depend on what the select cache holds: any list of hints gives the k-th one *)
+Theorem il256_select1_any_hints : forall bs c rate k,
+  ils_select1 {| ils := il_build bs; il_nbits := N.of_nat (length bs); il_cache := c; il_rate := rate |} k = select1 bs k.
+Proof. exact ils_select1_any_cache. Qed.
+Check il256_select1_any_hints : forall bs c rate k,
+  ils_select1 {| ils := il_build bs; il_nbits := N.of_nat (length bs); il_cache := c; il_rate := rate |} k = select1 bs k.
+Print Assumptions il256_select1_any_hints.
+
+Theorem il256_select0_correct : forall bs enable rate k,
+  ils_select0 (ils_build bs enable rate) k = select0 bs k.
+Proof. exact ils_select0_correct_proof. Qed.
+Check il256_select0_correct : forall bs enable rate k,
+  ils_select0 (ils_build bs enable rate) k = select0 bs k.
+Print Assumptions il256_select0_correct.
+
+Example il256_select_nonvacuous :
+  let bs := repeat true 300 ++ repeat false 213 ++ repeat true 87 in
+  ils_select1 (ils_build bs true 64) 300 = Some 513 /\ ils_select1 (ils_build bs false 64) 300 = Some 513 /\
+  ils_select1 (ils_build bs false 64) 255 = Some 255 /\ ils_select1 (ils_build bs true 64) 387 = None /\
+  ils_select0 (ils_build bs true 64) 212 = Some 512 /\ ils_select0 (ils_build bs true 64) 213 = None /\
+  il_cache (ils_build bs true 64) = Some [63; 127; 191; 255; 532; 596; 599]%N.
+Proof. vm_compute. repeat split; reflexivity. Qed.
+
+(* --- RankSelectSE256 as written (separated.rs: u32 lev1 + four u8 lev2 per 256-bit block, sentinel, optional
+       select caches, upper-bound binary search, descending scan over lev2, in-word select), every bit list, both
+       select-cache settings --- *)
+Theorem se256_rank1_correct : forall extra bs sp0 sp1 p,
+  p <= length bs -> se256_rank1 (se256_build bs extra sp0 sp1) p = Some (rank1 bs p).
+Proof. exact se256_rank1_correct_proof. Qed.
+Check se256_rank1_correct : forall extra bs sp0 sp1 p,
+  p <= length bs -> se256_rank1 (se256_build bs extra sp0 sp1) p = Some (rank1 bs p).
+Print Assumptions se256_rank1_correct.
+
+Theorem se256_rank0_correct : forall extra bs sp0 sp1 p,
+  p <= length bs -> se256_rank0 (se256_build bs extra sp0 sp1) p = Some (rank0 bs p).
+Proof. exact se256_rank0_correct_proof. Qed.
+Check se256_rank0_correct : forall extra bs sp0 sp1 p,
+  p <= length bs -> se256_rank0 (se256_build bs extra sp0 sp1) p = Some (rank0 bs p).
+Print Assumptions se256_rank0_correct.
+
+Theorem se256_rank1_refuses_past_end : forall extra bs sp0 sp1 p,
+  length bs < p -> se256_rank1 (se256_build bs extra sp0 sp1) p = None.
+Proof. exact se256_rank1_refuses_proof. Qed.
+Check se256_rank1_refuses_past_end : forall extra bs sp0 sp1 p,
+  length bs < p -> se256_rank1 (se256_build bs extra sp0 sp1) p = None.
+Print Assumptions se256_rank1_refuses_past_end.
+
+Theorem se256_get_correct : forall extra bs sp0 sp1 i,
+  se256_get (se256_build bs extra sp0 sp1) i = if length bs <=? i then None else Some (nth i bs false).
+Proof. exact se256_get_correct_proof. Qed.
+Check se256_get_correct : forall extra bs sp0 sp1 i,
+  se256_get (se256_build bs extra sp0 sp1) i = if length bs <=? i then None else Some (nth i bs false).
+Print Assumptions se256_get_correct.
+
+Theorem se256_count_ones : forall extra bs sp0 sp1,
+  mr1_256 (se256_build bs extra sp0 sp1) = count1 bs /\ size256 (se256_build bs extra sp0 sp1) = length bs.
+Proof. exact se256_count_ones_proof. Qed.
+Check se256_count_ones : forall extra bs sp0 sp1,
+  mr1_256 (se256_build bs extra sp0 sp1) = count1 bs /\ size256 (se256_build bs extra sp0 sp1) = length bs.
+Print Assumptions se256_count_ones.
+
+Theorem se256_select1_correct : forall extra bs sp0 sp1 k,
+  se256_select1 (se256_build bs extra sp0 sp1) k = select1 bs k.
+Proof. exact se256_select1_correct_proof. Qed.
+Check se256_select1_correct : forall extra bs sp0 sp1 k,
+  se256_select1 (se256_build bs extra sp0 sp1) k = select1 bs k.
+Print Assumptions se256_select1_correct.
+
+Theorem se256_select0_correct : forall extra bs sp0 sp1 k,
+  se256_select0 (se256_build bs extra sp0 sp1) k = select0 bs k.
+Proof. exact se256_select0_correct_proof. Qed.
+Check se256_select0_correct : forall extra bs sp0 sp1 k,
+  se256_select0 (se256_build bs extra sp0 sp1) k = select0 bs k.
+Print Assumptions se256_select0_correct.
+
+Example se256_nonvacuous :
+  let bs := repeat true 300 ++ repeat false 212 ++ repeat true 88 in
+  se256_rank1 (se256_build bs 0 true true) 600 = Some 388 /\ se256_rank1 (se256_build bs 0 true true) 512 = Some 300 /\
+  se256_rank1 (se256_build bs 0 true true) 601 = None /\
+  se256_select1 (se256_build bs 0 true true) 300 = Some 512 /\ se256_select1 (se256_build bs 2 false false) 388 = None /\
+  se256_select0 (se256_build bs 1 true false) 211 = Some 511 /\ se256_select0 (se256_build bs 0 true true) 212 = None.
+Proof. vm_compute. repeat split; reflexivity. Qed.
+
+(* --- RankSelectSimple as written (simple.rs: one u32 per 256-bit block, popcounts of the block's words, binary
+       search + ascending scan with a running remainder, clamped zero count of the last word) --- *)
+Theorem simple_rank1_correct : forall extra bs p,
+  p <= length bs -> simple_rank1 (simple_build bs extra) p = Some (rank1 bs p).
+Proof. exact simple_rank1_correct_proof. Qed.
+Check simple_rank1_correct : forall extra bs p,
+  p <= length bs -> simple_rank1 (simple_build bs extra) p = Some (rank1 bs p).
+Print Assumptions simple_rank1_correct.
+
+Theorem simple_rank0_correct : forall extra bs p,
+  p <= length bs -> simple_rank0 (simple_build bs extra) p = Some (rank0 bs p).
+Proof. exact simple_rank0_correct_proof. Qed.
+Check simple_rank0_correct : forall extra bs p,
+  p <= length bs -> simple_rank0 (simple_build bs extra) p = Some (rank0 bs p).
+Print Assumptions simple_rank0_correct.
+
+Theorem simple_rank1_refuses_past_end : forall extra bs p, length bs < p -> simple_rank1 (simple_build bs extra) p = None.
+Proof. exact simple_rank1_refuses_proof. Qed.
+Check simple_rank1_refuses_past_end : forall extra bs p, length bs < p -> simple_rank1 (simple_build bs extra) p = None.
+Print Assumptions simple_rank1_refuses_past_end.
+
+Theorem simple_get_correct : forall extra bs i,
+  simple_get (simple_build bs extra) i = if length bs <=? i then None else Some (nth i bs false).
+Proof. exact simple_get_correct_proof. Qed.
+Check simple_get_correct : forall extra bs i,
+  simple_get (simple_build bs extra) i = if length bs <=? i then None else Some (nth i bs false).
+Print Assumptions simple_get_correct.
+
+Theorem simple_count_ones : forall extra bs,
+  sm_mr1 (simple_build bs extra) = count1 bs /\ sm_size (simple_build bs extra) = length bs.
+Proof. exact simple_count_ones_proof. Qed.
+Check simple_count_ones : forall extra bs,
+  sm_mr1 (simple_build bs extra) = count1 bs /\ sm_size (simple_build bs extra) = length bs.
+Print Assumptions simple_count_ones.
+
+Theorem simple_select1_correct : forall extra bs k, simple_select1 (simple_build bs extra) k = select1 bs k.
+Proof. exact simple_select1_correct_proof. Qed.
+Check simple_select1_correct : forall extra bs k, simple_select1 (simple_build bs extra) k = select1 bs k.
+Print Assumptions simple_select1_correct.
+
+Theorem simple_select0_correct : forall extra bs k, simple_select0 (simple_build bs extra) k = select0 bs k.
+Proof. exact simple_select0_correct_proof. Qed.
+Check simple_select0_correct : forall extra bs k, simple_select0 (simple_build bs extra) k = select0 bs k.
+Print Assumptions simple_select0_correct.
+
+Example simple_nonvacuous :
+  let bs := repeat true 300 ++ repeat false 212 ++ repeat true 88 in
+  simple_rank1 (simple_build bs 3) 600 = Some 388 /\ simple_rank1 (simple_build bs 3) 512 = Some 300 /\
+  simple_select1 (simple_build bs 3) 300 = Some 512 /\ simple_select1 (simple_build bs 3) 388 = None /\
+  simple_select0 (simple_build bs 3) 211 = Some 511 /\ simple_select0 (simple_build bs 3) 212 = None.
+Proof. vm_compute. repeat split; reflexivity. Qed.
+
+(* --- the rest of few.rs: RankSelectFewOne rank0 / select0 / count_ones, RankSelectFewZero (sorted positions of the
+       zeros: rank0 by partition point, rank1 = pos - rank0, select0 by index, select1 by binary search over
+       positions, get, count_ones) --- *)
+Theorem few_rank0_correct : forall bs p,
+  few_rank0 (few_build bs) p = if length bs <? p then None else Some (rank0 bs p).
+Proof. exact few_rank0_correct_proof. Qed.
+Check few_rank0_correct : forall bs p,
+  few_rank0 (few_build bs) p = if length bs <? p then None else Some (rank0 bs p).
+Print Assumptions few_rank0_correct.
+
+Theorem few_select0_correct : forall bs k, few_select0 (few_build bs) k = select0 bs k.
+Proof. exact few_select0_correct_proof. Qed.
+Check few_select0_correct : forall bs k, few_select0 (few_build bs) k = select0 bs k.
+Print Assumptions few_select0_correct.
+
+Theorem fewone_count_ones : forall bs, few_count_ones (few_build bs) = count1 bs /\ fsize (few_build bs) = length bs.
+Proof. exact few_count_ones_proof. Qed.
+Check fewone_count_ones : forall bs, few_count_ones (few_build bs) = count1 bs /\ fsize (few_build bs) = length bs.
+Print Assumptions fewone_count_ones.
+
+Theorem fewzero_rank0_correct : forall bs p,
+  fz_rank0 (fz_build bs) p = if length bs <? p then None else Some (rank0 bs p).
+Proof. exact fz_rank0_correct_proof. Qed.
+Check fewzero_rank0_correct : forall bs p,
+  fz_rank0 (fz_build bs) p = if length bs <? p then None else Some (rank0 bs p).
+Print Assumptions fewzero_rank0_correct.
+
+Theorem fewzero_rank1_correct : forall bs p,
+  fz_rank1 (fz_build bs) p = if length bs <? p then None else Some (rank1 bs p).
+Proof. exact fz_rank1_correct_proof. Qed.
+Check fewzero_rank1_correct : forall bs p,
+  fz_rank1 (fz_build bs) p = if length bs <? p then None else Some (rank1 bs p).
+Print Assumptions fewzero_rank1_correct.
+
+Theorem fewzero_select0_correct : forall bs k, fz_select0 (fz_build bs) k = select0 bs k.
+Proof. exact fz_select0_correct_proof. Qed.
+Check fewzero_select0_correct : forall bs k, fz_select0 (fz_build bs) k = select0 bs k.
+Print Assumptions fewzero_select0_correct.
+
+Theorem fewzero_select1_correct : forall bs k, fz_select1 (fz_build bs) k = select1 bs k.
+Proof. exact fz_select1_correct_proof. Qed.
+Check fewzero_select1_correct : forall bs k, fz_select1 (fz_build bs) k = select1 bs k.
+Print Assumptions fewzero_select1_correct.
+
+Theorem fewzero_get_correct : forall bs i,
+  fz_get (fz_build bs) i = if length bs <=? i then None else Some (nth i bs false).
+Proof. exact fz_get_correct_proof. Qed.
+Check fewzero_get_correct : forall bs i,
+  fz_get (fz_build bs) i = if length bs <=? i then None else Some (nth i bs false).
+Print Assumptions fewzero_get_correct.
+
+Theorem fewzero_count_ones : forall bs, fz_count_ones (fz_build bs) = count1 bs /\ zsize (fz_build bs) = length bs.
+Proof. exact fz_count_ones_proof. Qed.
+Check fewzero_count_ones : forall bs, fz_count_ones (fz_build bs) = count1 bs /\ zsize (fz_build bs) = length bs.
+Print Assumptions fewzero_count_ones.
+
+Example fewzero_nonvacuous :
+  let bs := repeat true 70 ++ [false; true; false] ++ repeat true 60 in
+  fz_rank1 (fz_build bs) 73 = Some 71 /\ fz_select1 (fz_build bs) 71 = Some 73 /\ fz_select1 (fz_build bs) 131 = None /\
+  fz_select0 (fz_build bs) 1 = Some 72 /\ fz_get (fz_build bs) 72 = Some false /\
+  few_select0 (few_build bs) 1 = Some 72 /\ few_select0 (few_build bs) 2 = None.
+Proof. vm_compute. repeat split; reflexivity. Qed.
+
+(* --- BitVector as written (bit_vector.rs): a state machine over (blocks : Vec<u64>, len) with push, pop, set, get,
+       resize, ensure_set1, fast_ensure_set1, insert, clear, count_ones, rank1, rank0, len.  For every operation
+       history the observations equal those of a list of booleans, and the invariant "every storage bit at a position
+       >= len is zero" holds - which is why the structures built from the vector may popcount whole words
+       (bitvector_blocks_are_words). A panic (index out of bounds, debug assertion, subtraction underflow) is the
+       observation -2 of the model; the refinement shows it never occurs. --- *)
+Theorem bitvector_history_refines_list : forall ops,
+  let '(s', obs) := bv_run bv_new ops in
+  let '(l', obs') := ls_run [] ops in
+  obs = obs' /\ bv_abs s' = l' /\ bv_inv s'.
+Proof. exact bitvector_history_refines_list_proof. Qed.
+Check bitvector_history_refines_list : forall ops,
+  let '(s', obs) := bv_run bv_new ops in
+  let '(l', obs') := ls_run [] ops in
+  obs = obs' /\ bv_abs s' = l' /\ bv_inv s'.
+Print Assumptions bitvector_history_refines_list.
+
+Theorem bitvector_with_size_history_refines_list : forall n v ops,
+  exists s0, bv_with_size n v = Some s0 /\
+  let '(s', obs) := bv_run s0 ops in
+  let '(l', obs') := ls_run (repeat v n) ops in
+  obs = obs' /\ bv_abs s' = l' /\ bv_inv s'.
+Proof. exact bitvector_with_size_history_refines_list_proof. Qed.
+Check bitvector_with_size_history_refines_list : forall n v ops,
+  exists s0, bv_with_size n v = Some s0 /\
+  let '(s', obs) := bv_run s0 ops in
+  let '(l', obs') := ls_run (repeat v n) ops in
+  obs = obs' /\ bv_abs s' = l' /\ bv_inv s'.
+Print Assumptions bitvector_with_size_history_refines_list.
+
+Theorem bitvector_step_refines_list : forall s op, bv_inv s ->
+  let '(s', o) := bv_step s op in
+  let '(l', o') := ls_step (bv_abs s) op in
+  bv_inv s' /\ bv_abs s' = l' /\ o = o'.
+Proof. exact bv_step_refines. Qed.
+Check bitvector_step_refines_list : forall s op, bv_inv s ->
+  let '(s', o) := bv_step s op in
+  let '(l', o') := ls_step (bv_abs s) op in
+  bv_inv s' /\ bv_abs s' = l' /\ o = o'.
+Print Assumptions bitvector_step_refines_list.
+
+Theorem bitvector_never_panics : forall s op, bv_inv s -> snd (bv_step s op) <> PANIC.
+Proof. exact bv_step_no_panic. Qed.
+Check bitvector_never_panics : forall s op, bv_inv s -> snd (bv_step s op) <> PANIC.
+Print Assumptions bitvector_never_panics.
+
+(* trailing bits past the end are ignored because they are zero: block j of the storage is the 64-bit window j of
+   the abstract bit list padded with zeros, so a whole-word popcount is the popcount of the window *)
+Theorem bitvector_blocks_are_words : forall s j, bv_inv s ->
+  bits64 (nth j (blocks s) 0%N) = word (bv_abs s) j ++ repeat false (64 - length (word (bv_abs s) j)) /\
+  popcountN (nth j (blocks s) 0%N) = popcount (word (bv_abs s) j).
+Proof. intros s j H. split; [exact (bv_blocks_are_words s j H)|exact (bv_blocks_popcount s j H)]. Qed.
+Check bitvector_blocks_are_words : forall s j, bv_inv s ->
+  bits64 (nth j (blocks s) 0%N) = word (bv_abs s) j ++ repeat false (64 - length (word (bv_abs s) j)) /\
+  popcountN (nth j (blocks s) 0%N) = popcount (word (bv_abs s) j).
+Print Assumptions bitvector_blocks_are_words.
+
+Example bitvector_nonvacuous :
+  let ops := [OResize 63 true; OPush false; OPush true; OPop; ORank1 65; OResize 10 false; OEnsureSet1 130;
+              ORank1 200; ORank0 200; OCountOnes; OLen; OGet 130; OGet 131] in
+  snd (bv_run bv_new ops) = [0; 0; 0; 1; 63; 0; 0; 11; 120; 11; 131; 1; (-1)]%Z /\
+  blocks (fst (bv_run bv_new ops)) = [1023; 0; 4]%N.
+Proof. vm_compute. split; reflexivity. Qed.
+
+(* --- RankSelectMixedIL256 as written (mixed_il_256.rs), one dimension: the other dimension only determines how many
+       (all-zero) lines follow the data.  select0 is not offered by the code. --- *)
+Theorem mixed_rank1_correct : forall extra bs other p,
+  p <= length bs -> mx_rank1 (mx_build bs extra other) p = Some (rank1 bs p).
+Proof. exact mx_rank1_correct_proof. Qed.
+Check mixed_rank1_correct : forall extra bs other p,
+  p <= length bs -> mx_rank1 (mx_build bs extra other) p = Some (rank1 bs p).
+Print Assumptions mixed_rank1_correct.
+
+Theorem mixed_rank0_correct : forall extra bs other p,
+  p <= length bs -> mx_rank0 (mx_build bs extra other) p = Some (rank0 bs p).
+Proof. exact mx_rank0_correct_proof. Qed.
+Check mixed_rank0_correct : forall extra bs other p,
+  p <= length bs -> mx_rank0 (mx_build bs extra other) p = Some (rank0 bs p).
+Print Assumptions mixed_rank0_correct.
+
+Theorem mixed_rank1_refuses_past_end : forall extra bs other p, length bs < p -> mx_rank1 (mx_build bs extra other) p = None.
+Proof. exact mx_rank1_refuses_proof. Qed.
+Check mixed_rank1_refuses_past_end : forall extra bs other p, length bs < p -> mx_rank1 (mx_build bs extra other) p = None.
+Print Assumptions mixed_rank1_refuses_past_end.
+
+Theorem mixed_get_correct : forall extra bs other i,
+  mx_get (mx_build bs extra other) i = if length bs <=? i then None else Some (nth i bs false).
+Proof. exact mx_get_correct_proof. Qed.
+Check mixed_get_correct : forall extra bs other i,
+  mx_get (mx_build bs extra other) i = if length bs <=? i then None else Some (nth i bs false).
+Print Assumptions mixed_get_correct.
+
+Theorem mixed_count_ones : forall extra bs other,
+  mx_max_rank1 (mx_build bs extra other) = count1 bs /\ mx_size (mx_build bs extra other) = length bs.
+Proof. exact mx_count_ones_proof. Qed.
+Check mixed_count_ones : forall extra bs other,
+  mx_max_rank1 (mx_build bs extra other) = count1 bs /\ mx_size (mx_build bs extra other) = length bs.
+Print Assumptions mixed_count_ones.
+
+Theorem mixed_select1_correct : forall extra bs other k, mx_select1 (mx_build bs extra other) k = select1 bs k.
+Proof. exact mx_select1_correct_proof. Qed.
+Check mixed_select1_correct : forall extra bs other k, mx_select1 (mx_build bs extra other) k = select1 bs k.
+Print Assumptions mixed_select1_correct.
+
+Example mixed_nonvacuous :
+  let bs := repeat true 300 ++ repeat false 212 ++ repeat true 88 in
+  mx_rank1 (mx_build bs 0 1000) 600 = Some 388 /\ mx_rank1 (mx_build bs 1 0) 512 = Some 300 /\
+  mx_select1 (mx_build bs 0 1000) 300 = Some 512 /\ mx_select1 (mx_build bs 5 77) 387 = Some 599 /\
+  mx_select1 (mx_build bs 0 1000) 388 = None /\ length (mx_ls (mx_build bs 0 1000)) = 4.
+Proof. vm_compute. repeat split; reflexivity. Qed.
+
+(* --- trivial.rs: RankSelectAllZero / RankSelectAllOne on the all-zero / all-one list of the stored size --- *)
+Theorem allzero_correct : forall n p k i,
+  az_rank1 n p = (if n <? p then None else Some (rank1 (repeat false n) p)) /\
+  az_rank0 n p = (if n <? p then None else Some (rank0 (repeat false n) p)) /\
+  az_select1 n k = select1 (repeat false n) k /\
+  az_select0 n k = select0 (repeat false n) k /\
+  az_get n i = (if n <=? i then None else Some (nth i (repeat false n) false)) /\
+  az_count_ones n = count1 (repeat false n).
+Proof. exact allzero_correct_proof. Qed.
+Check allzero_correct : forall n p k i,
+  az_rank1 n p = (if n <? p then None else Some (rank1 (repeat false n) p)) /\
+  az_rank0 n p = (if n <? p then None else Some (rank0 (repeat false n) p)) /\
+  az_select1 n k = select1 (repeat false n) k /\
+  az_select0 n k = select0 (repeat false n) k /\
+  az_get n i = (if n <=? i then None else Some (nth i (repeat false n) false)) /\
+  az_count_ones n = count1 (repeat false n).
+Print Assumptions allzero_correct.
+
+Theorem allone_correct : forall n p k i,
+  ao_rank1 n p = (if n <? p then None else Some (rank1 (repeat true n) p)) /\
+  ao_rank0 n p = (if n <? p then None else Some (rank0 (repeat true n) p)) /\
+  ao_select1 n k = select1 (repeat true n) k /\
+  ao_select0 n k = select0 (repeat true n) k /\
+  ao_get n i = (if n <=? i then None else Some (nth i (repeat true n) false)) /\
+  ao_count_ones n = count1 (repeat true n).
+Proof. exact allone_correct_proof. Qed.
+Check allone_correct : forall n p k i,
+  ao_rank1 n p = (if n <? p then None else Some (rank1 (repeat true n) p)) /\
+  ao_rank0 n p = (if n <? p then None else Some (rank0 (repeat true n) p)) /\
+  ao_select1 n k = select1 (repeat true n) k /\
+  ao_select0 n k = select0 (repeat true n) k /\
+  ao_get n i = (if n <=? i then None else Some (nth i (repeat true n) false)) /\
+  ao_count_ones n = count1 (repeat true n).
+Print Assumptions allone_correct.
+
+(* --- adaptive.rs: select_implementation always builds RankSelectInterleaved256::new and every method forwards --- *)
+Theorem adaptive_correct : forall bs p k i,
+  adaptive_rank1 (adaptive_build bs) p = rank1 bs (Nat.min p (length bs)) /\
+  adaptive_rank0 (adaptive_build bs) p = rank0 bs (Nat.min p (length bs)) /\
+  adaptive_select1 (adaptive_build bs) k = select1 bs k /\
+  adaptive_select0 (adaptive_build bs) k = select0 bs k /\
+  adaptive_get (adaptive_build bs) i = (if length bs <=? i then None else Some (nth i bs false)) /\
+  adaptive_count_ones (adaptive_build bs) = count1 bs /\ adaptive_len (adaptive_build bs) = length bs.
+Proof. exact adaptive_correct_proof. Qed.
+Check adaptive_correct : forall bs p k i,
+  adaptive_rank1 (adaptive_build bs) p = rank1 bs (Nat.min p (length bs)) /\
+  adaptive_rank0 (adaptive_build bs) p = rank0 bs (Nat.min p (length bs)) /\
+  adaptive_select1 (adaptive_build bs) k = select1 bs k /\
+  adaptive_select0 (adaptive_build bs) k = select0 bs k /\
+  adaptive_get (adaptive_build bs) i = (if length bs <=? i then None else Some (nth i bs false)) /\
+  adaptive_count_ones (adaptive_build bs) = count1 bs /\ adaptive_len (adaptive_build bs) = length bs.
+Print Assumptions adaptive_correct.
+
+(* --- multidim_simd.rs MultiDimRankSelect / AdaptiveMultiDimensional: one interleaved-256 per dimension;
+       bulk_rank_multidim = rank1 per dimension (0 past the end), bulk_select_multidim = select1 per dimension --- *)
+Theorem multidim_correct : forall bvs m positions ranks,
+  md_build bvs = Some m ->
+  md_bulk_rank m positions = md_rank_spec (md_total_bits m) bvs positions /\
+  md_bulk_select m ranks = md_select_spec bvs ranks /\
+  (forall b, In b bvs -> length b = md_total_bits m).
+Proof. exact multidim_correct_proof. Qed.
+Check multidim_correct : forall bvs m positions ranks,
+  md_build bvs = Some m ->
+  md_bulk_rank m positions = md_rank_spec (md_total_bits m) bvs positions /\
+  md_bulk_select m ranks = md_select_spec bvs ranks /\
+  (forall b, In b bvs -> length b = md_total_bits m).
+Print Assumptions multidim_correct.
+
+Example multidim_nonvacuous :
+  let bs := repeat true 70 ++ repeat false 200 in
+  exists m, md_build [bs; map negb bs] = Some m /\
+    md_bulk_rank m [100; 100] = [70; 30] /\ md_bulk_rank m [271; 270] = [0; 200] /\
+    md_bulk_select m [69; 0] = Some [69; 70] /\ md_bulk_select m [70; 0] = None.
+Proof. eexists. split; [reflexivity|]. vm_compute. repeat split; reflexivity. Qed.
